@@ -214,10 +214,47 @@ def run_shard(spec, R):
                 else:
                     rhs = rhs_vec(wscale)
                     rhs_in = rhs.copy()
+                if si == 1:
+                    # a refused request in between: another matrix together with a right-hand side the solver does not
+                    # accept (non-zero multiplier entry); the re-used solver of the accepted matrix is still right
+                    bad = rhs_vec(wscale)
+                    bad[-1] = 1.0
+                    try:
+                        w1.linear_solve(lib_matrix(wB), bad, np.zeros_like(bad), reuse_solver=False)
+                        accepted = True
+                    except Exception:
+                        accepted = False
+                        R.count("refused_request_in_between")
+                    if accepted:
+                        # (formulations that accept such a right-hand side have now solved with the other matrix: the
+                        # accepted system is solved once more, so that 're-use' again refers to it)
+                        rr = rhs_vec(wscale)
+                        w1.linear_solve(lib_matrix(wts), rr, np.zeros_like(rr), reuse_solver=False)
                 if not one_step(label, wts, reuse, rhs, rhs_in, case):
                     usable = False
                     break
                 prev = (rhs, rhs_in)
+            if usable and wscale == 1.0:
+                # an integer-typed right-hand side (integer masses, integer flux block) is either refused or solved like
+                # the same numbers as floats
+                rhs_f = np.round(3 * rhs_vec(1.0))
+                rhs_f[nf:nf + nc] = np.round(rhs_f[nf:nf + nc] / M.volume)
+                rhs_f[nf] -= rhs_f[nf:nf + nc].sum()
+                rhs_f[-1] = 0.0
+                rhs_i = rhs_f.astype(np.int64)
+                matB = lib_matrix(wB)
+                try:
+                    out_i = w1.linear_solve(matB, rhs_i.copy(), np.zeros_like(rhs_i), reuse_solver=False)
+                except Exception:
+                    out_i = None
+                    R.skip("integer_rhs_refused")
+                if out_i is not None:
+                    ref_i = np.linalg.solve(dense_system(wB), rhs_f)
+                    sol_i = np.asarray(out_i[0], float)
+                    sc_i = max(float(np.max(np.abs(ref_i))), 1e-300)
+                    R.check(sol_i.shape == ref_i.shape and float(np.max(np.abs(sol_i - ref_i))) <= tol * sc_i * 10, "solves_same_system",
+                            lambda: {**case, "step": "integer-typed right-hand side", "result_dtype": str(np.asarray(out_i[0]).dtype), "max_error": float(np.max(np.abs(sol_i - ref_i))) / sc_i}, key=mkey, group=f"{formulation}/{backend}/integer_rhs")
+                    R.count("integer_rhs_solved")
             if usable:
                 R.ok("formulation_usable")
             # a second solver object on a grid of the same shape but other voxel sizes (nothing derived from the first
